@@ -213,6 +213,53 @@ func c04HonestAs(r *ev.Run, sf stackFactory, g *rng.R, caseID, prop string) {
 				}
 			}
 		}
+		// near-miss identities: Y's own identity text with one character changed (first, middle, the last few), at Y's transport
+		// address, from a node that already talks to Y: an identity compared or indexed only in part would let these through
+		for y := 0; y < n; y++ {
+			ay, _ := st.Nodes[y].LocalAddrs()[0].MarshalText()
+			iy := bytes.IndexByte(ay, '@')
+			if iy < 8 {
+				continue
+			}
+			sender := st.Nodes[(y+1)%n]
+			for _, pos := range []int{0, iy / 2, iy - 6, iy - 3, iy - 2, iy - 1} {
+				var addr p2p.Addr
+				var text []byte
+				for _, c := range []byte("AEIMQUYcgkosw048BCDx-_") {
+					if ay[pos] == c {
+						continue
+					}
+					t := append([]byte{}, ay...)
+					t[pos] = c
+					if a, err := sender.ParseAddr(t); err == nil {
+						if back, _ := a.MarshalText(); !bytes.Equal(back, ay) {
+							addr, text = a, t
+							break
+						}
+					}
+				}
+				if addr == nil {
+					continue
+				}
+				p := led.mk(g, sender.Idx, y, 48, 7)
+				tctx, cf := context.WithTimeout(ctx, 400*time.Millisecond)
+				var terr error
+				if st.HasAsk && pos%2 == 0 {
+					_, terr = sender.AskAddr(tctx, make([]byte, 16), addr, p2p.IOVec{p})
+				} else {
+					terr = sender.TellAddr(tctx, addr, p2p.IOVec{p})
+				}
+				cf()
+				r.Eval(1)
+				if terr == nil && (prop == "C01" || prop == "C02") {
+					r.Count("wrong_identity_tell_reported_success", 1)
+				} else if terr == nil {
+					viol("wrong-identity-accepted", "a Tell/Ask to an identity that differs from node Y's in one character, at node Y's transport address, reported success", map[string]any{"transport_of": y, "changed_position": pos, "identity_length": iy, "addr": string(text)})
+				} else {
+					r.NonTrivial(name + "/near-miss-identity-refused")
+				}
+			}
+		}
 		time.Sleep(20 * time.Millisecond)
 		// afterwards the nodes that were (wrongly) dialled talk to the dialler: whatever of it is delivered must carry their
 		// own identity (a handshake refused for the wrong identity must not have left a usable session behind)
@@ -851,8 +898,12 @@ func runC04(r *ev.Run) {
 		c04QUICClaims(r, g.Fork(), "quic-claims")
 	}
 	idx++
+	if r.Mine(idx) && r.Want("ssh-first-contact") {
+		c04SSHFirstContact(r, g.Fork(), "ssh-first-contact")
+	}
+	idx++
 	if r.Mine(idx) && r.Want("whitelists") {
 		c04Whitelists(r, g.Fork(), "whitelists")
 	}
-	r.Sample(map[string]any{"secure_stacks": len(secureStacks(isThorough(r))), "ssh_auth_orderings": 31, "attacks": []string{"wrong-identity address", "ssh auth interleaving", "p2pke on-path responder", "p2pke foreign handshake at bound address", "whitelist tell/ask", "quic certificate chains claiming the victim"}})
+	r.Sample(map[string]any{"secure_stacks": len(secureStacks(isThorough(r))), "ssh_auth_orderings": 31, "attacks": []string{"wrong-identity address", "ssh first contact with stale identities started together with the right one", "ssh auth interleaving", "p2pke on-path responder", "p2pke foreign handshake at bound address", "whitelist tell/ask", "quic certificate chains claiming the victim"}})
 }
